@@ -144,9 +144,11 @@ static _Atomic int storm_idx;
 static void *storm_thread(void *c) {
 	op_t *op = c;
 	int i = atomic_fetch_add(&storm_idx, 1);
+	int sk = sig_register();
 	logev(EV_CALL, op->id, i, op->kind);
 	dispatch_once_f(&ONCE[op->a], op, storm_init_f);
 	logev(EV_RET, op->id, i, 0);
+	sig_unregister(sk);
 	if (once_val[op->a] != pat((uint64_t)op->a, 99)) logev(EV_CHKFAIL, op->id, 3, i);
 	return NULL;
 }
@@ -557,7 +559,9 @@ static void *client(void *arg) {
 	long t = (long)arg;
 	my_tid = (uint32_t)t;
 	flag_wait(&start_flag);
+	int sk = sig_register();
 	if (CTX[t]) run_ctx(CTX[t]);
+	sig_unregister(sk);
 	logev(EV_THREAD_DONE, -1, (int32_t)t, 0);
 	return NULL;
 }
@@ -566,9 +570,11 @@ static void *coordinator(void *arg) {
 	(void)arg; my_tid = 63;
 	pthread_t th[MAXTHR], jt;
 	pthread_create(&jt, 0, janitor, 0);
+	pthread_t pinger; if (P.sig_interval_us > 0) pthread_create(&pinger, 0, sig_pinger, 0);
 	for (long i = 0; i < nthreads; i++) pthread_create(&th[i], 0, client, (void *)i);
 	flag_set(&start_flag);
 	for (int i = 0; i < nthreads; i++) pthread_join(th[i], 0);
+	if (P.sig_interval_us > 0) { atomic_store(&sig_stop, 1); pthread_join(pinger, 0); logev(EV_NOTE, -1, 77, atomic_load(&sig_sent)); }
 	int p;
 	while ((p = atomic_load(&pending)) > 0) fwait(&pending, p);
 	// obligations never reached by any script (e.g. a resume the program skipped) are discharged now, so that
